@@ -170,7 +170,7 @@ class LoopAnalysis(object):
             else:
                 current = self._add_mesh_currents(loop, loops, node_names,
                                                   mesh_currents)
-                v = -elt.cpt.voltage_equation(current, self.kind)
+                v = elt.cpt.voltage_equation(-current, self.kind)
 
             is_reversed = node_names[0] == loop1[j] \
                 and node_names[1] == loop1[j + 1]
